@@ -22,6 +22,7 @@ RULE = ("Complete enumeration, per rule, of {absent, each listed value, one unli
         "(rule, assignment) pairs are counted.")
 RULE += ("  Call forms: the node on its own and as an inner node of a minimal valid host tree (validate.tree from the host's root).")
 RULE += ('  Foreign attribute names also come with a namespace prefix; metamorphic: the node dressed in prefixes / namespace maps (binding those prefixes) / extras / tails gives the same verdict and codes.')
+RULE += ('  Enumerated attributes also carry values that are no strings (False, True, 0, 1, 0.0, 1.0, None).')
 ASSUMPTIONS = [
     "attribute values are strings (what every importer produces)",
     "content and children of the node are valid so that every reported error concerns attributes",
